@@ -29,6 +29,7 @@ type injPlan struct {
 	Panic    int   // 0 error return, 1 panic(error), 2 panic(string)
 	ErrVal   int   // what the failing invocation returns next to its error (injSetErrVal)
 	calls    atomic.Int64
+	scalars  atomic.Int64 // invocations of vf_fail whose first argument was a non-NULL scalar
 	failed   atomic.Int64
 	mu       sync.Mutex
 	tagCalls map[string]int
@@ -44,12 +45,16 @@ var injEpoch atomic.Int64
 
 var errInjected = errors.New("injected failure (vf_fail)")
 
+// injScalarCalls: invocations of vf_fail since the last reset whose first argument was a non-NULL scalar
+func injScalarCalls() int64 { return inj.scalars.Load() }
+
 func injReset(failAt int64, panicMode int) {
 	inj.mu.Lock()
 	inj.FailAt = failAt
 	inj.Panic = panicMode
 	inj.ErrVal = 0
 	inj.calls.Store(0)
+	inj.scalars.Store(0)
 	inj.failed.Store(0)
 	inj.tagCalls = map[string]int{}
 	inj.tagDone = map[string]int{}
@@ -90,6 +95,12 @@ func vfMul(q *genql.Query, cur genql.Map, fo *genql.FunctionOptions, args []any)
 
 func vfFail(q *genql.Query, cur genql.Map, fo *genql.FunctionOptions, args []any) (any, error) {
 	n := inj.calls.Add(1)
+	if len(args) > 0 {
+		switch args[0].(type) {
+		case string, bool, float64, float32, int, int8, int16, int32, int64, uint, uint8, uint16, uint32, uint64:
+			inj.scalars.Add(1)
+		}
+	}
 	inj.mu.Lock()
 	failAt, mode, errVal := inj.FailAt, inj.Panic, inj.ErrVal
 	inj.mu.Unlock()
